@@ -258,26 +258,44 @@ def build_model():
 
 
 # ------------------------------------------------------------------------------------------------
+def _pad(out_path, n_expected):
+    """a runner that stopped early (watchdog HANG, exit status 3) leaves fewer result lines than cases: pad with
+    NOT-RUN so that later shards stay aligned with their cases"""
+    with open(out_path) as f:
+        n = sum(1 for _ in f)
+    if n < n_expected:
+        with open(out_path, "a") as f:
+            for _ in range(n_expected - n):
+                f.write("NOT-RUN\n")
+
+
 def run_sharded(cmd, case_file, out_file, nlines, shards):
-    """run `cmd < chunk` on `shards` contiguous chunks of case_file in parallel; concatenate"""
+    """run `cmd < chunk` on `shards` contiguous chunks of case_file in parallel; concatenate.
+    Exit status 3 = the harness watchdog saw a case that did not return (reported as a `HANG <case>` line)."""
     if shards <= 1:
         with open(case_file) as fi, open(out_file, "w") as fo:
             r = subprocess.run(cmd, stdin=fi, stdout=fo, stderr=subprocess.PIPE, text=True)
-        if r.returncode != 0:
+        if r.returncode == 3:
+            _pad(out_file, nlines)
+        elif r.returncode != 0:
             raise Broken("runner", "%s: %s" % (" ".join(cmd), r.stderr[-2000:]))
         return
     per = (nlines + shards - 1) // shards
     chunk_files = []
+    counts = []
     with open(case_file) as fi:
         for k in range(shards):
             cf = "%s.chunk%d" % (case_file, k)
+            c = 0
             with open(cf, "w") as fo:
                 for _ in range(per):
                     line = fi.readline()
                     if not line:
                         break
                     fo.write(line)
+                    c += 1
             chunk_files.append(cf)
+            counts.append(c)
     procs = []
     for k, cf in enumerate(chunk_files):
         fi = open(cf)
@@ -285,11 +303,13 @@ def run_sharded(cmd, case_file, out_file, nlines, shards):
         procs.append((subprocess.Popen(["bash", "-c", "ulimit -s unlimited; exec \"$@\"", "x"] + cmd, stdin=fi, stdout=fo,
                                        stderr=subprocess.PIPE, text=True), fi, fo))
     errs = []
-    for p, fi, fo in procs:
+    for k, (p, fi, fo) in enumerate(procs):
         _, err = p.communicate()
         fi.close()
         fo.close()
-        if p.returncode != 0:
+        if p.returncode == 3:
+            _pad("%s.out%d" % (out_file, k), counts[k])
+        elif p.returncode != 0:
             errs.append(err[-2000:])
     with open(out_file, "w") as fo:
         for k in range(len(chunk_files)):
@@ -334,7 +354,7 @@ def correspondence(prop, fams, bins, modelrun, work):
             if not same:
                 with open(case_file) as fc, open(impl_out) as fi, open(model_out) as fm:
                     for k, (c, a, b) in enumerate(zip(fc, fi, fm)):
-                        if a != b:
+                        if a != b and a.strip() != "NOT-RUN":
                             fam_mis += 1
                             if len(mismatches) < 20:
                                 mismatches.append({"family": name, "profile": prof, "line": k + 1, "case": c.strip(),
@@ -379,7 +399,7 @@ def run_oracle(prop, bins, seed, tier, hint=None):
             continue
         args = [bins[prof], "oracle", prop, "--seed", str(seed), "--tier", tier]
         try:
-            r = subprocess.run(args, stdout=subprocess.PIPE, stderr=subprocess.PIPE, text=True, timeout=3000)
+            r = subprocess.run(args, stdout=subprocess.PIPE, stderr=subprocess.PIPE, text=True, timeout=1200)
         except subprocess.TimeoutExpired:
             continue
         for line in r.stdout.splitlines():
